@@ -12,7 +12,10 @@ use crate::{
 use std::{fmt::Debug, sync::Arc, time::Duration, mem::MaybeUninit, task::Waker, future};
 use std::future::Future;
 use std::marker::PhantomData;
+#[cfg(not(feature = "verif"))]
 use crossbeam_channel::{Sender, Receiver, TryRecvError, TrySendError};
+#[cfg(feature = "verif")]
+use crate::verif::cb::{self as crossbeam_channel, Sender, Receiver, TryRecvError, TrySendError};
 
 
 pub struct Crossbeam<'a, ItemType,
